@@ -99,8 +99,8 @@ func init() {
 			before := qtWalk(q)
 			// gates: goroutine i blocks in its filter until the controller hands it a token
 			token := make([]chan struct{}, np)
-			yield := make(chan int)    // goroutine i reached a gate
-			finish := make(chan int)   // goroutine i returned
+			yield := make(chan int)     // goroutine i reached a gate
+			finish := make(chan int)    // goroutine i returned
 			free := make(chan struct{}) // closed when the schedule is exhausted
 			for i := range token {
 				token[i] = make(chan struct{})
